@@ -7,6 +7,7 @@ primitive library (PyRef: Python math; NpRef: numpy scalars; CRef: IEEE ops + th
 bit; plus source-level invariants (single assignment before use, one declaration per name, no two nodes sharing a ref).
 """
 
+import itertools
 import ast
 import contextlib
 import io
@@ -418,7 +419,23 @@ def compare_values(target, g, syms, fn_or_batch, fname, rng, n_inputs, what):
                 eager = ("raises", type(e).__name__)
             if eager == got:
                 continue
-        if want[0] != got[0] or (want[0] == "raises" and want[1] != got[1]) or (want[0] == "value" and not same_bits(want[1], got[1], target)):
+        differs = want[0] != got[0] or (want[0] == "raises" and want[1] != got[1]) or (want[0] == "value" and not same_bits(want[1], got[1], target))
+        if differs and target == "numpy" and want[0] == got[0] == "value":
+            # numpy evaluates ** by scalar math or by the ufunc loop depending on whether an operand is a 0-d array
+            # (the value of numpy.where); the two forms of the same primitive may differ in the last bit for float32
+            pows = [nd for nd in nodes if nd.kind == "pow" and id(nd) in r.memo]
+            subsets = itertools.chain.from_iterable(itertools.combinations(pows, m) for m in range(1, len(pows) + 1)) if len(pows) <= 4 else [pows]
+            for sub in subsets:
+                r2 = ref_cls(env, record_flags=False)
+                r2.ufunc_pow = {id(nd) for nd in sub}
+                try:
+                    with np.errstate(all="ignore"):
+                        if same_bits(r2.eval(body), got[1], target):
+                            differs = False
+                            break
+                except Exception:
+                    pass
+        if differs:
             out.append(("%s/value-differs-from-graph" % target, "%s: inputs (%s): emitted code -> %r, direct evaluation of the graph -> %r" % (what, ", ".join(map(repr, args)), got[1], want[1])))
             break
     return out, compared
